@@ -99,7 +99,7 @@ func runC04(c *core.Ctx) {
 	c.Floor("R04d", 2, "Read of both stream readers")
 	c.Floor("R04e", 11, "6 functions on the Read chains + 5 wrap-up call sites")
 	c04RuleG(e)
-	c.Floor("R04g", 6, "2 constructors x (candidate expr from split result, filter expr from split input, presence decided by comparing the two)")
+	c.Floor("R04g", 8, "2 constructors x (candidate expr from split result, filter expr from split input, presence decided by comparing the two)")
 	c.Floor("R04h", 1, "XML CharData case")
 	c.Floor("R04i", 6, "2 readers x (marking store, delivering return, rejecting removal)")
 	c04RuleF(e)
@@ -1126,6 +1126,36 @@ func c04RuleG(e *c04Env) {
 			} else {
 				c.OK("R04g", k2, core.InstrPos(ct.filSt), "same value is split and compiled")
 			}
+			// (4) the split function looks for the filter's closing bracket at the very end of its argument: S has to be
+			// trimmed — by the constructor (S is the result of a library trim) or by the split function itself (seed C17-9:
+			// the constructor's TrimSpace was dropped; with a trailing blank no filter is recognised, the full xpath is tested
+			// at open time and every node of the document is kept as a candidate)
+			k4 := base + " split input is trimmed"
+			isTrim := func(v ssa.Value) bool {
+				tc, ok := v.(*ssa.Call)
+				if !ok {
+					return false
+				}
+				cf := c04Callee(tc)
+				if cf == nil || cf.Pkg == nil || cf.Pkg.Pkg.Path() != "strings" {
+					return false
+				}
+				switch cf.Name() {
+				case "TrimSpace", "TrimRight", "TrimRightFunc", "Trim", "TrimFunc":
+					return true
+				}
+				return false
+			}
+			trimmed := isTrim(sIn)
+			if !trimmed {
+				for _, ci := range core.Calls(split) {
+					if v, ok := ci.(*ssa.Call); ok && isTrim(v) {
+						trimmed = true
+					}
+				}
+			}
+			c.Check(trimmed, "R04g", k4, core.InstrPos(ct.pathSt), "S is the result of a library trim (or "+core.FuncKey(split)+" trims its argument)",
+				"the string handed to "+core.FuncKey(split)+" is not trimmed (neither by this function nor by the split function): the split function recognises a final predicate only when its closing bracket is the last character, so a target xpath with a trailing blank keeps its predicate in the open-time candidate test — no node matches while incomplete, or every node is retained")
 			// (3) the nil / non-nil choice
 			if nNil == 0 || nExpr == 0 {
 				c.OK("R04g", k3, core.InstrPos(ct.filSt), "no choice: the filter field is always / never set here")
